@@ -448,12 +448,16 @@ impl LockFreeMemoryPool {
                 // Empty bin, need to allocate new memory
                 return self.allocate_new_block(size);
             }
+            #[cfg(zipora_verif)]
+            crate::verif_hooks::sched_point("os.pop.loaded", current_offset as u64, current_gen as u64);
 
             // Load next pointer from current head
             let next_offset = unsafe {
                 let current_ptr = self.offset_to_ptr(current_offset)?;
                 *(current_ptr.as_ptr() as *const u32)
             };
+            #[cfg(zipora_verif)]
+            crate::verif_hooks::sched_point("os.pop.next", current_offset as u64, next_offset as u64);
 
             // ABA-SAFE: Pack next offset with INCREMENTED generation counter
             // This prevents ABA: even if offset A→B→A, generation won't match
@@ -468,6 +472,8 @@ impl LockFreeMemoryPool {
             ) {
                 Ok(_) => {
                     // Success! Update count and return pointer
+                    #[cfg(zipora_verif)]
+                    crate::verif_hooks::sched_point("os.pop.cas", current_offset as u64, 1);
                     // SAFETY FIX (v2.1.1): Use Release ordering to synchronize with head update
                     // This ensures the count decrement is visible to other threads that observe
                     // the new head value, preventing race conditions in high-contention scenarios
@@ -512,6 +518,8 @@ impl LockFreeMemoryPool {
             unsafe {
                 *(ptr.as_ptr() as *mut u32) = current_offset;
             }
+            #[cfg(zipora_verif)]
+            crate::verif_hooks::sched_point("os.push.linked", offset as u64, current_offset as u64);
 
             // ABA-SAFE: Pack new offset with INCREMENTED generation counter
             let new_packed = Self::pack_head(offset, current_gen.wrapping_add(1));
@@ -525,6 +533,8 @@ impl LockFreeMemoryPool {
             ) {
                 Ok(_) => {
                     // Success! Update count
+                    #[cfg(zipora_verif)]
+                    crate::verif_hooks::sched_point("os.push.cas", offset as u64, 1);
                     bin.count.fetch_add(1, Ordering::Relaxed);
 
                     if let Some(stats) = &self.stats {
@@ -571,6 +581,8 @@ impl LockFreeMemoryPool {
         // Always allocate from backing memory to ensure consistent pointer validation
         // External cache allocations would cause pointer validation failures in deallocate
         let offset = self.next_offset.fetch_add(aligned_size as u32, Ordering::Relaxed);
+        #[cfg(zipora_verif)]
+        crate::verif_hooks::sched_point("os.bump", offset as u64, aligned_size as u64);
         
         if offset as usize + aligned_size > self.config.memory_size {
             return Err(ZiporaError::out_of_memory(aligned_size));
